@@ -8,10 +8,10 @@ from vk.build import build, pack_bp, unpack_bp
 
 ID = 'C01'
 RULE = ('Hypothesis-generated abstract netlists (33 primitives through all documented kind spellings, forks, fork chains, '
-        'DFF Q/QN, latches, open input pins, open outputs, both port styles) x 0/1 stimuli x batch sizes 1..70 x 1..4 cycles '
+        'DFF Q/QN, latches, open input pins, open outputs, both port styles) x 0/1 stimuli x batch sizes 1..70 x 1..4 (sometimes 9, 33, 1100, 2600) cycles '
         'x {c_reuse} x {strip_forks}; oracle = own gate-by-gate evaluator. non-trivial: depth >= 3 and at least one of '
         '{reconvergent fan-out, state element feeding logic, open pin, batch size not a multiple of 8, >= 2 cycles}; '
-        'distinct by SHA-1 of the case. Part wide: a fixed small sequential netlist with 8193 .. 200003 patterns in one batch. Part big: a few deterministic chains with more than 2^16 nodes and lines and grids of 7k-36k cells with many values alive at once (index and counter arithmetic).')
+        'distinct by SHA-1 of the case. Part wide: a fixed small sequential netlist with 8193 .. 200003 patterns in one batch. Part big: a few deterministic chains with more than 2^16 nodes and lines and grids of 7k-36k cells with many values alive at once (index and counter arithmetic). In 2 cases of 5 the unconnected operand pins below a gate\'s arity hang on floating nets (undriven forks, one per pin or one shared): they read 0 all the same.')
 ASSUMPTIONS = ['numba absent: the njit 2-valued loop runs as plain Python (same source)',
                'reference evaluator vk/refmodel.py written from the primitive names, independent of sim.py LUTs']
 
@@ -21,7 +21,7 @@ def cases(draw, tier):
     big = tier == 'thorough'
     nl = draw(S.netlists(max_g=40 if big else 14, max_pi=6 if big else 5, max_st=4 if big else 3, need_d=False))
     sims = draw(S.SIMS)
-    cycles = draw(st.sampled_from([0, 0, 1, 2, 3, 4]))
+    cycles = draw(st.sampled_from([0, 0, 1, 2, 3, 4] * 7 + [9, 33, 1100, 2600]))      # 'for all cycle counts': now and then long runs in one cycle() call
     # a state element without data pin: its unconnected pin reads constant 0 like every unconnected input pin, so its next state is 0
     pi = draw(S.bitvecs(nl['pi'], sims))
     stt = draw(S.bitvecs(len(nl['st']), sims))
